@@ -554,7 +554,7 @@ func Run(cfg hx.Config) error {
 	c.known()
 	c.knownUnconfigured()
 
-	nScen := cfg.N(30, 200)
+	nScen := cfg.N(26, 200)
 	nPairs := cfg.N(40, 300)
 	for i := 0; i < nScen && !r.Stop() && !c.s.Lost; i++ {
 		sc := genScenario(rnd)
@@ -697,7 +697,7 @@ func Run(cfg hx.Config) error {
 	cs := ctrl.NewSession(r)
 	cs.Quiet, cs.Concurrency = true, 4
 	cc := &checker{r: r, s: cs}
-	nConc := cfg.N(1000, 8000)
+	nConc := cfg.N(600, 8000)
 	for i := 0; i < nConc && !r.Stop() && !cs.Lost; i++ {
 		sc := scenario{Cfg: GenConfig(rnd, rnd.U64()), M: GenManifest(rnd, 4)}
 		if rnd.Chance(1, 3) {
